@@ -11,9 +11,10 @@ PROPERTY = "C05"
 LEVEL = "model_checking"
 CODE = ["yowsup/layers/noise/layer_noise_segments.py:YowNoiseSegmentsLayer.receive",
         "yowsup/layers/noise/layer_noise_segments.py:YowNoiseSegmentsLayer.send"]
-BOUNDS = {"quick": "streams of k<=3 frames cut into m<=3 chunks (every frame length 1..2^24-1, every cut position); "
+BOUNDS = {"quick": "[+ call depth of every hand-over in the step; 1100 minimal frames (unconstrained bytes) in one read] " 
+                   "streams of k<=3 frames cut into m<=3 chunks (every frame length 1..2^24-1, every cut position); "
                    "step harness: 1 pending + <=2 whole frames + partial next; send: every length 0..2^25; consumer failing on one delivery (k<=3 frames, m<=2 chunks)",
-          "thorough": "streams of k<=4 frames cut into m<=5 chunks; same step and send harnesses"}
+          "thorough": "[+ 4000 minimal frames in one read] streams of k<=4 frames cut into m<=5 chunks; same step and send harnesses"}
 OUTSIDE = ["streams with more frames/chunks than the bound are covered only through the step harness, which assumes the "
            "layer's only state is its read buffer (checked structurally on each run)",
            "frames of length 0 (the property quantifies over non-empty frames)"]
